@@ -10,7 +10,7 @@ PROP = "C18"
 FAMILY = {
     "S1": dict(init=[dict(o=True), dict(o=False), dict(o=True, slen=40)],
                leaves=["/a", "/b/0", "/b/1", "/o", "/i/x", "/i/s"], internal=["", "/b", "/i"],
-               sets={"/a": [7, 4000000000, -1, "x"], "/b/0": [True, False, 1], "/o": [3, 300, None], "/i/x": [255, 256], "/i/s": ["hello", "é", 5]}),
+               sets={"/a": [7, 4000000000, -1, "x"], "/b/0": [True, False, 1], "/o": [3, 300, None], "/i/x": [255, 256], "/i/s": ["hello", "é", 5, "lab/ch0"]}),
     "S2": dict(init=[{}], leaves=["/x", "/y"], internal=[""], sets={"/x": [1, -2147483648, 2147483648], "/y": [0, [1]]}),
     "S3": dict(init=[dict(e=True), dict(e=False)],
                leaves=["/v", "/arr/0/0", "/arr/0/1", "/arr/1/0", "/arr/1/1", "/e/p", "/e/q", "/renamed/0", "/renamed/1/p", "/renamed/1/q"],
@@ -36,6 +36,12 @@ def cases_for(rng, tier, rs_bin):
                         reqs += [dict(api="set", path=leaf, value=v), dict(api="get", path=leaf)]
                 reqs += [dict(api="dump", path=p) for p in F["internal"][:2]] + [dict(api="list", path="")]
                 cases.append(dict(kind="e2e", client=client, settings=sname, init=init, rs_bin=rs_bin, requests=reqs[:40]))
+    # a leaf whose JSON value does not fit the device's transmit buffer (1 KiB configuration, 700-byte string): the
+    # device answers Get / List-on-a-leaf with an Error response; after a short value is written it answers normally
+    for client in ("sync", "async"):
+        reqs = [dict(api="get", path="/i/s"), dict(api="list", path="/i/s"), dict(api="get", path="/a"), dict(api="list", path="/i"),
+                dict(api="set", path="/i/s", value="short"), dict(api="get", path="/i/s")]
+        cases.append(dict(kind="e2e", client=client, settings="S1", init=dict(o=True, slen=700), buffer=1024, rs_bin=rs_bin, requests=reqs))
     n = 12 if tier == "quick" else 300
     for i in range(n):
         sname = rng.choice(list(FAMILY))
@@ -70,6 +76,12 @@ def judged(rec):
     return rec["handled"] and rec["state"] == "Single" and rec["can_publish"]
 
 
+def large(rec):
+    """the device holds a value that minimq's transmit buffer cannot hold (its verdict, observed: the value was not sent)"""
+    o = rec["oracle"] or {}
+    return "get" in o and bool(o.get("overflow")) and len(o["get"]) > 64 and not rec.get("value_sent", True)
+
+
 def expected(rq, rec):
     """the property text: what the Python caller must get, from the device's own state (oracle)"""
     o = rec["oracle"] or {}
@@ -80,6 +92,8 @@ def expected(rq, rec):
         if o.get("set_ok"):
             return ["value", "OK"]
         return ["failed", "Error", o.get("set_err", o.get("err", "?"))]
+    if "get" in o and large(rec):
+        return ["failed", "Error", o["overflow"]]
     if "get" in o:
         v = bytes(o["get"]).decode()
         if api == "get":
@@ -119,7 +133,9 @@ def model_expr(case, rq, sent, rec):
     mode = dict(get=1, set=1, list=2, dump=0)[rq["api"]]
     topic = sent["topic"]
     pref = "dt/dev/settings"
-    if "get" in o:
+    if large(rec):
+        ans = "(AGetLarge %s)" % M.coq_bytes(M.b2l(o["overflow"]))
+    elif "get" in o:
         ans = "(AGet %s)" % M.coq_bytes(o["get"])
     elif "internal" in o:
         ans = "(AInternal [%s])" % "; ".join(M.coq_bytes(M.b2l(x)) for x in o["internal"])
